@@ -10,13 +10,13 @@ def run(prop, tier, seed, known):
     from .. import native
     native.import_repo()
     import numpy as np
-    from mir_eval import beat, pattern, transcription_velocity as TV, transcription as T, alignment, melody, onset
+    from mir_eval import beat, pattern, transcription_velocity as TV, transcription as T, alignment, melody, onset, multipitch
     rng = random.Random(seed)
     n = 0
 
     class Fails(list):
         """keeps only the relations that belong to the property being checked"""
-        RULES = (('octave', ('C09',)), ('raised', ('C14',)), ('out of', ('C01',)), ('not binary', ('C01',)), ('nested', ('C07',)), ('above without', ('C07',)),
+        RULES = (('octave', ('C09',)), ('raised', ('C14',)), ('accepted', ('C14',)), ('out of', ('C01',)), ('not binary', ('C01',)), ('nested', ('C07',)), ('above without', ('C07',)),
                  ('perfect', ('C02',)), ('shift', ('C08',)), ('reordering', ('C08',)), ('symmetric', ('C06',)), ('swap', ('C06',)))
 
         def append(self, msg):
@@ -132,6 +132,13 @@ def run(prop, tier, seed, known):
                         if abs(pv[key] - other[key]) > 1e-9:
                             fails.append('pattern %s changes under %s: %r vs %r' % (key, what, pv[key], other[key]))
                             break
+                # first-n scores: the order of the reference list is immaterial for every n (only the estimate is cut to its first n)
+                for nn in (1, 2):
+                    a1 = pattern.evaluate(rp, ep, n=nn)
+                    a2 = pattern.evaluate(rp2, ep, n=nn)
+                    for key in ('FFTP_est', 'FFP'):
+                        if abs(a1[key] - a2[key]) > 1e-9:
+                            fails.append('pattern %s (n=%d) changes under reordering the reference patterns: %r vs %r' % (key, nn, a1[key], a2[key]))
             # ---------------------------------------------------------------- transcription with velocities
             kk = rng.randint(1, 4)
             ri = np.array([[i * 1.0, i * 1.0 + 0.5] for i in range(kk)])
@@ -169,6 +176,39 @@ def run(prop, tier, seed, known):
                     fails.append('octave: multiplying reference and estimate by 2 changes melody scores: %s vs %s' % (dict(m0), dict(m3)))
                 if m0['Raw Pitch Accuracy'] > m0['Raw Chroma Accuracy'] + 1e-12:
                     fails.append('nested: raw pitch above raw chroma accuracy')
+                # the same relations when the estimate lives on its own time base (resampling with interpolation)
+                tt2 = np.arange(2 * nf - 1) * 0.0625
+                ef2 = np.repeat(ef, 2)[:2 * nf - 1]
+                r0 = guard('melody.evaluate (resampled)', lambda: melody.evaluate(tt, rf, tt2, ef2))
+                r1 = guard('melody.evaluate (resampled, negated)', lambda: melody.evaluate(tt, rf, tt2, -ef2))
+                if r0 is not None and r1 is not None and (abs(r0['Raw Pitch Accuracy'] - r1['Raw Pitch Accuracy']) > 1e-9 or abs(r0['Raw Chroma Accuracy'] - r1['Raw Chroma Accuracy']) > 1e-9):
+                    fails.append('octave/sign: negating the estimated frequencies changes raw pitch / raw chroma accuracy when the estimate is resampled: %s vs %s'
+                                 % ((r0['Raw Pitch Accuracy'], r0['Raw Chroma Accuracy']), (r1['Raw Pitch Accuracy'], r1['Raw Chroma Accuracy'])))
+            # ---------------------------------------------------------------- multipitch: common transposition (C09), pitches on both sides of the octave seam
+            nfm = rng.randint(1, 4)
+            tm = np.arange(nfm) * 0.25
+            hz = lambda m: 440.0 * 2.0 ** ((m - 69.0) / 12.0)
+            rm = [sorted(set(rng.sample([48.0, 59.9, 60.0, 60.1, 64.0, 71.9, 72.1, 83.8], rng.randint(0, 3)))) for _ in range(nfm)]
+            em = [[m + rng.choice([0.0, 0.1, -0.2, 0.3, 0.7, 11.8, 12.2, -12.1]) for m in fr] + ([rng.choice([55.0, 66.3])] if rng.random() < 0.3 else []) for fr in rm]
+            rfz = [np.array([hz(m) for m in fr]) for fr in rm]
+            efz = [np.array(sorted(hz(m) for m in fr)) for fr in em]
+            # the property excludes pitch differences within rounding error of the tolerance: skip frames with a pair at 0.5 semitones
+            def near_tol(fr, fe):
+                for a in fr:
+                    for b in fe:
+                        for d in (abs(a - b), abs((a - b) % 12.0), 12.0 - abs((a - b) % 12.0)):
+                            if abs(d - 0.5) < 1e-6:
+                                return True
+                return False
+            b0 = None if any(near_tol(a, b) for a, b in zip(rm, em)) else guard('multipitch.metrics', lambda: multipitch.metrics(tm, rfz, tm, efz))
+            if b0 is not None:
+                for semis in (1, 2, 5, -3):
+                    fac = 2.0 ** (semis / 12.0)
+                    b1 = multipitch.metrics(tm, [x * fac for x in rfz], tm, [x * fac for x in efz])
+                    if any(abs(x - y) > 1e-9 for x, y in zip(b0, b1)):
+                        fails.append('octave/transposition: multiplying all multipitch frequencies by 2^(%d/12) changes the scores: %s vs %s (ref midi %s, est midi %s)'
+                                     % (semis, [round(float(x), 4) for x in b0], [round(float(x), 4) for x in b1], rm, em))
+                        break
             # ---------------------------------------------------------------- alignment PCS
             ts = np.array(sorted(rng.sample([x * 0.25 for x in range(0, 40)], rng.randint(2, 6))))
             es = np.array(sorted(max(0.0, x + rng.choice([-0.25, 0, 0.25])) for x in ts))
@@ -181,6 +221,35 @@ def run(prop, tier, seed, known):
                 fails.append('perfect alignment: %s' % dict(same))
             if abs(alignment.percentage_correct_segments(ts + 2.0, es + 2.0) - alignment.percentage_correct_segments(ts, es)) > 1e-9:
                 fails.append('MIREX PCS changes under a common time shift')
+            # PCS with the audio duration: a last timestamp equal to the duration is valid (C14); a later one is rejected
+            dur_eq = float(max(ts[-1], es[-1]))
+            guard('alignment.percentage_correct_segments(duration == last timestamp)', lambda: alignment.percentage_correct_segments(ts, es, duration=dur_eq))
+            guard('alignment.evaluate(duration == last timestamp)', lambda: alignment.evaluate(ts, es, duration=dur_eq))
+            # ---------------------------------------------------------------- pattern occurrences that list an event twice (accepted by validate): ranges only
+            dp = [[list(occ) + [occ[0]] for occ in pt] for pt in ep]
+            pd = guard('pattern.evaluate with a repeated event', lambda: pattern.evaluate(rp, dp))
+            if pd is not None:
+                for key, v in pd.items():
+                    if not (np.isfinite(v) and v >= -1e-9) or (key not in ('P', 'F') and v > 1 + 1e-9):
+                        fails.append('pattern.evaluate[%r] = %r out of range when an estimated occurrence repeats an event' % (key, v))
+            # ---------------------------------------------------------------- multipitch: single faults on either side are rejected (C14)
+            nfr = rng.randint(1, 4)
+            mt = np.arange(nfr) * 0.25
+            good = lambda: [np.array(sorted(rng.sample([110.0, 220.0, 330.0, 440.0, 880.0], rng.randint(0, 3)))) for _ in range(nfr)]
+            rfq, efq = good(), good()
+            guard('multipitch.evaluate on a valid input', lambda: multipitch.evaluate(mt, rfq, mt, efq))
+            bad_frame = rng.choice([np.array([6000.0]), np.array([5.0]), np.array([[220.0, 440.0]])])
+            for side in ('reference', 'estimate'):
+                fr, fe = [x.copy() for x in rfq], [x.copy() for x in efq]
+                (fr if side == 'reference' else fe)[rng.randrange(nfr)] = bad_frame
+                n += 1
+                try:
+                    multipitch.metrics(mt, fr, mt, fe)
+                    fails.append('multipitch.metrics accepted (no ValueError raised) a malformed %s frame %s' % (side, bad_frame.tolist()))
+                except ValueError:
+                    pass
+                except Exception as ex:
+                    fails.append('multipitch.metrics raised %s instead of ValueError for a malformed %s frame %s' % (type(ex).__name__, side, bad_frame.tolist()))
             if len(fails) > 8:
                 break
     bounded = [dict(name='metamorphic relations of beat / pattern / transcription_velocity / alignment metrics (ranges, perfect estimate, swap, nested criteria, time shift, reference order)',
